@@ -5,7 +5,7 @@ PROP = {
     "runs": [{"tag": "c17", "bin": "c17"},
              # caller programs compiled separately (harness/src/bin/gcall.rs): the operations used from code generic over the
              # lengths / element type with exactly the published impl bounds, and with plain method syntax (direct oracles)
-             {"tag": "c17call", "bin": "gcall", "args": ["--prop", "C17"], "model": False}],
+             {"tag": "c17call", "bin": "gcall", "no_default_features": True, "args": ["--prop", "C17"], "model": False}],
     "mismatch_is_failing": True,
     "rule": "scripted Deserializer/SeqAccess: every element count 0..=N+2 x up-front hint (none, N, N-1, N+1, the count, 0) x hint-after behaviour (none, truthful countdown, constant 0, constant 7, countdown from N) x tail (nothing / error) x a fault (SeqAccess error, element type error, early 'nothing') at every index, exhaustively for N<=3 (thorough: N<=8), boundary indices for N in {5,8,16,33}; JSON text, bincode and serde_json::Value inputs with every count 0..=N+2 and an unparsable element at every index; serialisation through a recording Serializer, JSON, bincode and Value; element types u8, f64, drop-tracked Tr and a zero-sized drop-tracked type (destructor runs counted, identities reconstructed from creation order); plus seeded random scripts. distinct = distinct CASE lines; non-trivial = N > 0 and at least one item offered",
     "nontrivial": lambda case, obs: case.split()[2] != "0" and case.split()[7] != "0",
